@@ -806,6 +806,10 @@ func (ck *checker) checkCase(env *qh.Env, q *qm.Q, only *qh.PlanCase) {
 				c.Count("setup_panic_under_scaled_statistics", 1)
 				return
 			}
+			if strings.Contains(err.Error(), "cannot do math on String literal") {
+				c.Count("undecided_expression_error_at_setup", 1) // as in C22
+				return
+			}
 			ck.fail(env, q, pc, "setup", "%v", err)
 			return
 		}
